@@ -17,6 +17,7 @@ import (
 	"go/token"
 	"go/types"
 	"regexp"
+	"strings"
 )
 
 // structRenames9: all generated files share one Lean namespace; a struct whose Go name is already
@@ -76,4 +77,190 @@ func (c *leafCtx) append9(x *ast.CallExpr) (string, string, bool) {
 	}
 	c.needPrelude3 = true
 	return "(Go.appendOwn " + xs + " " + v + ")", xt, true
+}
+
+// ---- foreign objects made inside the function ----------------------------------------------------
+//
+// opaqueCtors: a foreign constructor whose object is used only through the methods listed. The
+// object is rendered as the TUPLE OF THE CONSTRUCTOR'S ARGUMENTS (the constructor is deterministic
+// and the object immutable: every answer of a method is a function of those arguments and the
+// method's own); the constructor's error and each method are FUNCTION-typed parameters applied to
+// the translated arguments at every call site, as for opaqueMethods (generation 8). A method whose
+// table entry says `panics` returns an Option (none = the library panics).
+type opaqueCtor9 struct {
+	args    []string // Lean-side argument types of the constructor
+	obj     string   // translator type of the object
+	methods map[string]opaqueMethod9
+}
+type opaqueMethod9 struct {
+	args   []string
+	ret    string
+	panics bool
+}
+
+const aeadObj9 = "F:(String × List UInt8 × Int64)"
+
+var opaqueCtors9 = map[string]opaqueCtor9{
+	"miscreant.NewAEAD": {[]string{"Str", "L_UInt8", "Int64"}, aeadObj9, map[string]opaqueMethod9{
+		"NonceSize": {nil, "Int64", false},
+		"Open":      {[]string{"L_UInt8", "L_UInt8", "L_UInt8", "L_UInt8"}, "T:L_UInt8,Bool", true},
+	}},
+}
+
+func (c *leafCtx) args9(what string, args []ast.Expr, types []string) ([]string, []string, bool) {
+	if len(args) != len(types) {
+		c.fail("%s: %d arguments for %d", what, len(args), len(types))
+		return nil, nil, false
+	}
+	var as, ts []string
+	for i, a := range args {
+		var e, t string
+		if id, ok := a.(*ast.Ident); ok && id.Name == "nil" && types[i] == "L_UInt8" {
+			e, t = "([] : List UInt8)", "L_UInt8" // a nil byte slice: length 0
+		} else if bl, ok := a.(*ast.BasicLit); ok && types[i] == "Int64" {
+			e, t = "("+bl.Value+" : Int64)", "Int64"
+		} else {
+			e, t = c.expr(a, types[i])
+		}
+		if t != "" && t != types[i] {
+			c.fail("argument %d of %s: %s for %s", i, what, t, types[i])
+			return nil, nil, false
+		}
+		as = append(as, e)
+		ts = append(ts, leanTypeName(types[i]))
+	}
+	return as, ts, true
+}
+
+func (c *leafCtx) expr9(e ast.Expr, want string) (string, string, bool) {
+	switch x := e.(type) {
+	case *ast.CallExpr:
+		f, ok := x.Fun.(*ast.SelectorExpr)
+		if !ok {
+			return "", "", false
+		}
+		id, ok := f.X.(*ast.Ident)
+		if !ok {
+			return "", "", false
+		}
+		if _, isVar := c.vars[id.Name]; !isVar {
+			if ct, ok := opaqueCtors9[id.Name+"."+f.Sel.Name]; ok { // obj, err := pkg.Ctor(args…)
+				as, ts, ok := c.args9(id.Name+"."+f.Sel.Name, x.Args, ct.args)
+				if !ok {
+					return "0", want, true
+				}
+				name := "ext_" + id.Name + "_" + f.Sel.Name + "_err"
+				c.addExtern(name, strings.Join(ts, " → ")+" → Bool")
+				return "((" + strings.Join(as, ", ") + "), (" + name + " " + strings.Join(as, " ") + "))", "T:" + ct.obj + ",Bool", true
+			}
+			if id.Name == "bytes" && f.Sel.Name == "Equal" && len(x.Args) == 2 { // bytes.Equal(a, b): same length, same bytes
+				a, at := c.expr(x.Args[0], "L_UInt8")
+				b, bt := c.expr(x.Args[1], "L_UInt8")
+				if at != "L_UInt8" || bt != "L_UInt8" {
+					c.fail("bytes.Equal on something other than byte slices")
+					return "false", "Bool", true
+				}
+				return "(" + a + " == " + b + ")", "Bool", true
+			}
+			return "", "", false
+		}
+		for cn, ct := range opaqueCtors9 { // a method of an object made by such a constructor
+			if c.vars[id.Name] != ct.obj {
+				continue
+			}
+			m, ok := ct.methods[f.Sel.Name]
+			if !ok {
+				c.fail("unsupported method %s of the object made by %s", f.Sel.Name, cn)
+				return "0", want, true
+			}
+			as, ts, ok := c.args9(cn+"."+f.Sel.Name, x.Args, m.args)
+			if !ok {
+				return "0", want, true
+			}
+			name := "ext_" + strings.Replace(cn, ".", "_", 1) + "_" + f.Sel.Name
+			ret := tupleTypeName(m.ret)
+			if m.panics {
+				ret = "Option " + ret
+			}
+			c.addExtern(name, strings.Join(append([]string{leanTypeName(ct.obj)}, ts...), " → ")+" → "+ret)
+			call := "(" + name + " " + strings.Join(append([]string{c.lname(id.Name)}, as...), " ") + ")"
+			if m.panics {
+				v := c.fresh("_o")
+				c.binds = append(c.binds, c.bindLine(call, v, "opt:library"))
+				return v, m.ret, true
+			}
+			return call, m.ret, true
+		}
+	case *ast.SliceExpr: // b[:hi] as a value on a byte-slice parameter the function does not write: b[0:hi]
+		if id, isId := x.X.(*ast.Ident); isId && c.vars[id.Name] == "L_UInt8" && !c.madeHere[id.Name] && x.Low == nil && x.High != nil && x.Max == nil {
+			s, t := c.expr(&ast.SliceExpr{X: x.X, Low: &ast.BasicLit{Kind: token.INT, Value: "0"}, High: x.High}, want)
+			return s, t, true
+		}
+	}
+	return "", "", false
+}
+
+// ---- sinks -------------------------------------------------------------------------------------------
+//
+// sinkMethods9: a pointer parameter of a foreign type that the function only hands values to
+// (`ntskeFetcher.StoreCookie(c)`): the parameter is dropped and the calls are recorded, in order,
+// with their argument, in a thread `sk_<param>` handed back with the result — the function's effect
+// on the object is this list. A method outside the table, or a use of the object as a value, is
+// refused ("unknown identifier").
+var sinkMethods9 = map[string]map[string]string{
+	"ntske.Fetcher": {"StoreCookie": "L_UInt8"},
+}
+
+func sinkType9(t ast.Expr) string {
+	st, ok := t.(*ast.StarExpr)
+	if !ok {
+		return ""
+	}
+	se, ok := st.X.(*ast.SelectorExpr)
+	if !ok {
+		return ""
+	}
+	id, ok := se.X.(*ast.Ident)
+	if !ok {
+		return ""
+	}
+	if _, ok := sinkMethods9[id.Name+"."+se.Sel.Name]; ok {
+		return id.Name + "." + se.Sel.Name
+	}
+	return ""
+}
+
+func (c *leafCtx) stmt9(s ast.Stmt, next func(string) string, ind string) (string, bool) {
+	es, ok := s.(*ast.ExprStmt)
+	if !ok {
+		return "", false
+	}
+	ce, ok := es.X.(*ast.CallExpr)
+	if !ok {
+		return "", false
+	}
+	f, ok := ce.Fun.(*ast.SelectorExpr)
+	if !ok {
+		return "", false
+	}
+	id, ok := f.X.(*ast.Ident)
+	if !ok {
+		return "", false
+	}
+	st, isSink := c.sinks[id.Name]
+	if !isSink {
+		return "", false
+	}
+	at, ok := sinkMethods9[st][f.Sel.Name]
+	if !ok || len(ce.Args) != 1 {
+		c.fail("unsupported method %s of the sink %s", f.Sel.Name, st)
+		return "0", true
+	}
+	e, t := c.expr(ce.Args[0], at)
+	if t != at {
+		c.fail("argument of %s.%s: %s for %s", st, f.Sel.Name, t, at)
+		return "0", true
+	}
+	th := "sk_" + id.Name
+	return c.takeBinds(ind) + "let " + th + " : " + threadType(th) + " := " + th + " ++ [" + e + "]\n" + ind + next(ind), true
 }
